@@ -359,6 +359,19 @@ func init() {
 		}
 		return mkStrBytes(out)
 	}
+	// strings.Compare / bytes.Compare / cmp.Compare on strings: -1, 0, +1
+	compare := func(a, b sval) value {
+		lt, gt := strLess(a, b), strLess(b, a)
+		return mkIte(lt, mkBV(64, ^uint64(0)), mkIte(gt, mkBV(64, 1), mkBV(64, 0)))
+	}
+	intrinsics["strings.Compare"] = func(fr *frame, args []value) value {
+		return compare(args[0].(sval), args[1].(sval))
+	}
+	intrinsics["internal/bytealg.CompareString"] = intrinsics["strings.Compare"]
+	intrinsics["bytes.Compare"] = func(fr *frame, args []value) value {
+		return compare(mkStrBytes(bytesOf(args[0])), mkStrBytes(bytesOf(args[1])))
+	}
+	intrinsics["internal/bytealg.Compare"] = intrinsics["bytes.Compare"]
 	intrinsics["strings.EqualFold"] = func(fr *frame, args []value) value {
 		a, b := args[0].(sval), args[1].(sval)
 		ca, ok1 := a.concrete()
